@@ -61,7 +61,13 @@ func loadTables() {
 		}
 	}
 	specialExcs = specialPool(tblExceptions)
+	isSpecialID = map[string]bool{}
+	for _, x := range specialIDs {
+		isSpecialID[x] = true
+	}
 }
+
+var isSpecialID map[string]bool
 
 // unlistedBases: X such that X-only or X-or-later is listed but X is not
 var unlistedBases []string
@@ -94,6 +100,12 @@ func specialPool(ids []string) []string {
 	}
 	add(sh)
 	add(lo)
+	for _, x := range ids {
+		// every id of extreme length, and of the length next to it (bounds computed from the longest / shortest id)
+		if len(x) >= len(lo)-1 || len(x) <= len(sh)+1 {
+			add(x)
+		}
+	}
 	lower := make([]string, len(ids))
 	for i, x := range ids {
 		lower[i] = strings.ToLower(x)
@@ -220,8 +232,9 @@ func (t *term) build() {
 var refNames = []string{"a", "b", "x-1.0", "MIT", "GPL-2.0-or-later", "A.b-c",
 	// names that look like other lexemes: operator words, words embedded between dots, license spellings with suffixes
 	"AND", "OR", "WITH", "and", "dual.or.commercial", "a.and.b", "x.with.y", "or", "MIT-or-later", "Apache-2.0-or-later", "Apache-2.0-only", "acme-eula", "ACME-EULA",
-	"v1", "v01", "1", "01", "99999999999999999999", "99999999999999999998"}
-var docNames = []string{"d", "e.1", "spdx-tool-1.2"}
+	"v1", "v01", "1", "01", "99999999999999999999", "99999999999999999998",
+	"acme-EULA-only", "acme-EULA-ONLY", "eval-or-later", "eval-OR-LATER"}
+var docNames = []string{"d", "e.1", "spdx-tool-1.2", "spdx-tool", "sbom-OR-LATER"}
 
 func genBaseID() string {
 	switch rng.Intn(5) {
@@ -486,7 +499,7 @@ func siblingTerm(t *term) *term {
 	n := &term{caseMod: -1}
 	if t.isRef {
 		n.isRef, n.doc, n.ref = true, t.doc, t.ref
-		switch rng.Intn(4) {
+		switch rng.Intn(6) {
 		case 0:
 			n.ref = strings.ToUpper(t.ref)
 			if n.ref == t.ref {
@@ -500,6 +513,27 @@ func siblingTerm(t *term) *term {
 			}
 		case 2:
 			n.doc = strings.ToUpper(pick(docNames))
+		case 3:
+			// the document id extended / cut so that one is a prefix of the other, continued by a byte on either side of ':'
+			if t.doc == "" {
+				n.doc = pick(docNames)
+			} else if rng.Intn(2) == 0 {
+				n.doc = t.doc + pick([]string{"-1.2", ".1", "1", "-", "x", "A"})
+			} else if len(t.doc) > 1 {
+				n.doc = t.doc[:len(t.doc)-1-rng.Intn(len(t.doc)-1)]
+			}
+		case 4:
+			// the name with a suffix word of licence ids in another letter case
+			stem := t.ref
+			for _, sw := range []string{"-only", "-or-later"} {
+				if len(stem) > len(sw) && strings.EqualFold(stem[len(stem)-len(sw):], sw) {
+					stem = stem[:len(stem)-len(sw)]
+				}
+			}
+			n.ref = stem + pick([]string{"-only", "-ONLY", "-Only", "-or-later", "-OR-LATER", "-or-Later"})
+			if n.ref == t.ref {
+				n.ref = stem + "-oNLY"
+			}
 		default:
 			n.ref = t.ref + "-x"
 			if rng.Intn(2) == 0 {
@@ -1009,3 +1043,36 @@ func whitespaceLists() [][]string {
 var specialWords = []string{"NONE", "NOASSERTION", "none", "noassertion", "NoAssertion", "UNLICENSED", "UNKNOWN", "unknown", "Proprietary",
 	"Commercial", "Public-Domain", "PublicDomain", "SEE-LICENSE-IN-LICENSE", "null", "nil", "undefined", "true", "N-A", "TBD", "ANY", "ALL", "*",
 	"LicenseRef", "DocumentRef", "licenseref-", "AdditionRef-x", "AdditionRef-MIT", "ExceptionRef-x", "LicenseRef-x-exception", "additionref-x", "WITH", "AND", "OR", "NOT", "and", "or", "with", "-", ".", "-only", "-or-later", "+"}
+
+// wideAnd: `x AND (LicenseRef-wa0 OR … ) AND (LicenseRef-wb0 OR …)` — two OR groups of ⌈√n⌉ references each, so that the
+// disjunctive form has at least n alternatives at a cost linear in n (one OR chain of n terms costs n² in this library) —
+// and two allowed entries that satisfy the groups.  Code that takes another route "above N alternatives" (a limit, a tree
+// walk instead of the expansion, a parallel scan) is reached only by such inputs.
+func wideAnd(x string, n int) (string, []string) {
+	k := 1
+	for k*k < n {
+		k++
+	}
+	var b strings.Builder
+	b.WriteString(x)
+	for _, g := range []string{"wa", "wb"} {
+		b.WriteString(" AND (")
+		for i := 0; i < k; i++ {
+			if i > 0 {
+				b.WriteString(" OR ")
+			}
+			b.WriteString("LicenseRef-" + g)
+			b.WriteString(itoa(i))
+		}
+		b.WriteString(")")
+	}
+	return b.String(), []string{"LicenseRef-wa" + itoa(k/2), "LicenseRef-wb" + itoa(k-1)}
+}
+
+// wideSizes: numbers of alternatives just above the round limits such code picks
+func wideSizes() []int {
+	if thorough() {
+		return []int{300, 1100, 4200, 66000, 101000}
+	}
+	return []int{300, 1100, 4200, 66000}
+}
